@@ -10,7 +10,7 @@ cleanup() { git -C /repo worktree remove --force "$WT" >/dev/null 2>&1; rm -rf "
 trap cleanup EXIT
 cd "$WT" || exit 2
 # demos refer to the agent's worktree path; point them at this one
-sed -E "s#/tmp/wt/C[0-9]+[a-z]?#$WT#g" "$SRC/demo.py" > "$WT/_demo.py"
+sed -E "s#/tmp/wt/(C[0-9]+[a-z]?|S[0-9]+)([^0-9a-zA-Z]|$)#$WT\2#g" "$SRC/demo.py" > "$WT/_demo.py"
 PYTHONPATH="$WT/src" timeout 300 /venv/bin/python "$WT/_demo.py" > "$WT/_before.log" 2>&1; B=$?
 if ! git apply --3way "$SRC/patch.diff" > "$WT/_apply.log" 2>&1; then echo "$NAME: PATCH-CONFLICT"; cat "$WT/_apply.log" | tail -3; exit 1; fi
 git diff HEAD -- src > "$WT/_rebased.diff"
